@@ -11,7 +11,7 @@ import (
 )
 
 // VH_C12_DisciplineSeq: height 1 round 0 entered with no votes yet (0/1 header), then
-// 3 (quick) / 4 (thorough) events of any kind.
+// quick: 2 events of any kind + 1 event without new vote numbers; thorough: 4 events.
 func VH_C12_DisciplineSeq() {
 	vhOpts()
 	e := vhNewSM(true)
@@ -20,11 +20,7 @@ func VH_C12_DisciplineSeq() {
 		return
 	}
 	e.check(chkC12)
-	n := 3
-	if verifrt.Thorough() {
-		n = 4
-	}
-	e.run(chkC12, vhEvents(), n)
+	e.runSeq(chkC12)
 	if e.seen&vhSeenNextHeight != 0 {
 		verifrt.Reach("C12-seq:entered-next-height")
 	}
@@ -41,7 +37,8 @@ func VH_C12_DisciplineSeq() {
 }
 
 // VH_C12_DisciplineStartAny: start-up answered with an arbitrary view (every step the
-// start-up path can begin in) or a committed header, then 2 events of any kind.
+// start-up path can begin in) or a committed header, then 2 events of any kind of which at
+// most one brings new vote numbers (quick) / 3 events (thorough).
 func VH_C12_DisciplineStartAny() {
 	vhOpts()
 	e := vhNewSM(true)
@@ -50,7 +47,12 @@ func VH_C12_DisciplineStartAny() {
 		return
 	}
 	e.check(chkC12)
-	e.run(chkC12, vhEvents(), 2)
+	if verifrt.Thorough() {
+		e.run(chkC12, vhEvents(), 3)
+	} else {
+		e.viewsLeft = 1
+		e.run(chkC12, vhEvents(), 2)
+	}
 	if e.seen&vhSeenReplaying != 0 {
 		verifrt.Reach("C12-start:replaying")
 	}
